@@ -44,7 +44,7 @@ class Prop:
             "timestamps from several addresses, response to a pre-restart initiation; responses whose receiver is replaced (MAC1 recomputed) by every "
             "index the device ever issued for the peer (session indices in next/current/previous, deleted ones) while a new initiation is outstanding; "
             "valid initiations with crafted increasing timestamps fired back to back (judged against the 1/50 s of the property text with the "
-            "conservative bound settle-time(second) - inject-time(first) < 20 ms); 4..12 goroutines calling SendHandshakeInitiation at once (48+ rounds): exactly one initiation may leave; device-emitted timestamps across a restart only in "
+            "conservative bound settle-time(second) - inject-time(first) < 20 ms), also with a Down/Up right after the answered one; 4..12 goroutines calling SendHandshakeInitiation at once (48+ rounds): exactly one initiation may leave; device-emitted timestamps across a restart only in "
             "the dedicated F7 scenario; non-trivial = scenario with at least one accepted and one inert handshake message; distinct by content hash")
     assumptions = ["messages whose MAC1 does not verify (or that fail the size/type gate) must be silent and inert under load too; for messages with a "
                    "valid MAC1 the no-reply clauses are for a device not under load (under load the cookie reply is C10's business and is only mirrored, not judged)",
@@ -176,7 +176,10 @@ class Prop:
             alt += "+remac"
         if m.get("replay"):
             alt = "replay"
-        return "%s:%s:%s" % (CLAUSES.get(clause, "clause%d" % clause), m.get("kind", step.get("op", "?")), alt)
+        sig = "%s:%s:%s" % (CLAUSES.get(clause, "clause%d" % clause), m.get("kind", step.get("op", "?")), alt)
+        if clause == 3 and any(s["op"] == "restart" for s in upto[:-1]):
+            sig += ":across-restart"   # the flood limit was forgotten over a peer Stop/Start
+        return sig
 
     def nontrivial(self, c):
         return c.get("accepted", 0) > 0 and c.get("inert", 0) > 0
